@@ -6,7 +6,8 @@ CLAIMS = {
                 "left_n at tau[0]; last row: order right_n at tau[last]; interior rows: values), column i <-> basis i; csolve's two count guards give Err "
                 "with the spline untouched and success stores Some(fdsolve(bsplmatrix(tau,left_n,right_n), y, allow_lsq)); every ppdnev_single* is "
                 "inner(c, [B_i^(m)(x)]_{i<n}) (Err before solving; the two mixed-kind methods always Err); the dual liftings equal the unary chain rule "
-                "with f, f', f'' = B^(m), B^(m+1), B^(m+2) at x.real; the 9-case mapped_value type table.",
+                "with f, f', f'' = B^(m), B^(m+1), B^(m+2) at x.real; the 9-case mapped_value type table."
+                " Also included: C13's and C14's rules and R15.6 (Python-facing spline methods: order 0 vs m, float promotion without variables, kind refusal).",
         "design_ref": "DESIGN.md §4 C15",
         "note": "Not decided: interpolation / polynomial reproduction as numerical facts (rest on C13's undecided part).",
         "technique": "array-comprehension semantics; explore() of &mut self methods; oracle composition formula; case tables",
@@ -16,7 +17,8 @@ CLAIMS = {
                 "org_k given or defaulted) and must equal the Cox-de Boor decision list with the support short-circuit and the right-end rule, resp. "
                 "the derivative recursion (m=0 -> value, k=1 or m>=k -> 0, factor k-1, Some(org_k) on every recursive call); every quotient's "
                 "denominator must be the difference its guard tests. Non-negativity, locality and partition of unity are consequences of the "
-                "recurrence and are not separately evaluated.",
+                "recurrence and are not separately evaluated."
+                ' Also included: R15.4 (the basis at a dual abscissa) and R15.6 (the vectorised evaluator and the Python-facing spline methods reach the kernels with their arguments unchanged). Path sets are minimised, so the order of independent tests does not matter.',
         "design_ref": "DESIGN.md §4 C14",
         "note": "Not decided: values at concrete knots/points, rounding. A behaviour-preserving restructuring of the kernels' decision order can trip R14.1 (fail closed).",
         "technique": "path-set equality of symbolic summaries against the recurrence; guard/denominator agreement",
@@ -26,7 +28,8 @@ CLAIMS = {
                 "float-matrix implementation must have identical lists (sibling agreement — a change to one not mirrored in the other is reported), the "
                 "row swap must be immediately followed by the rhs swap with the same (j,k) under j != k with k = argabsmax(A[j.., j]) + j, argabsmax "
                 "must compare absolute values; back substitution is x[i] = (b[i] - u[i,i+1..].x[i+1..])/u[i,i] descending in both; with allow_lsq the "
-                "system is (A^T A, A^T b) from the same transposed operand. Numerical correctness of elimination is NOT decided.",
+                "system is (A^T A, A^T b) from the same transposed operand. Numerical correctness of elimination is NOT decided."
+                ' Also: row_swap/el_swap exchange whole rows/elements (R13.1); the AD rules are included.',
         "design_ref": "DESIGN.md §4 C13",
         "note": "Not decided (declared): that the returned vector solves the system in value and derivatives for all well-conditioned inputs; row-order independence.",
         "technique": "sibling cross-check of canonical update-statement lists; call pairing with index agreement; idiom check",
@@ -37,7 +40,8 @@ CLAIMS = {
                 "write to the rate matrix is chain-typed (quote at [idx(p0),idx(p1)], reciprocal at the mirror, M[p,n]*M[n,q] at [p,q] with one inner "
                 "index) and paired with edge writes; crosses only where the edge entry is 0; Ok(true) only under edges.sum()==n*n, exhausted "
                 "candidates give Err; lookup reads [idx(lhs), idx(rhs)] in all variants. By induction every entry of an Ok market is the product of "
-                "quotes along a path with inverses on reversed edges, quoted pairs returned as quoted.",
+                "quotes along a path with inverses on reversed edges, quoted pairs returned as quoted."
+                " Also included: C10's state rules R10.3-R10.6, the FXRates loader rule (S20.2: a stored market goes through try_new) and R10.7 (Python-facing FXRates methods delegate unchanged).",
         "design_ref": "DESIGN.md §4 C09",
         "note": "Not decided (declared): that every valid tree is accepted (liveness of the recursive fill-in); order/base independence as executed; rounding.",
         "technique": "path flattening of symbolic summaries; array-comprehension semantics of indexed writes (chain typing); quantifier shapes",
@@ -47,7 +51,8 @@ CLAIMS = {
                 "is lifted with the name formatted from pair i; refusal is atomic (MIR: no Err-producing block reachable from a block writing through "
                 "self in update/set_ad_order); update refuses unknown pairs (forall/exists shape), replaces the slot found by pair equality, rebuilds on "
                 "currencies[0] from the full list and replaces all three fields; set_ad_order's 9 cases: identity / rebuild at the target order / "
-                "value-preserving element projection into n x n.",
+                "value-preserving element projection into n x n."
+                ' Also included: the AD operator and alignment rules (C01/C02/C03) and R10.7 (Python-facing methods).',
         "design_ref": "DESIGN.md §4 C10",
         "note": "Not decided: numeric sensitivities on concrete markets (C01/C02 along C09's chain typing). Trusted: lib/cel.py, MIR place syntax.",
         "technique": "cross-language constant agreement; MIR reachability (no write before last fallible point); symbolic case evaluation with explore()",
@@ -58,7 +63,8 @@ CLAIMS = {
                 "get_roll then roll with its own modifier/settlement; get_roll_by_day's three paths (valid / retry day-1 while day>28 / abort); "
                 "get_eom's downward search from 31; is_leap_year = Feb 29 exists; is_imm/is_eom. R08.5 decides the year/month carry of add_months by "
                 "value-set analysis of its path formulas: Q = trunc(months/12) stays symbolic, t = month + remainder ranges over -10..23, each path's "
-                "feasible t-set is computed from its branch conditions and on it 12*carry + month' = t with month' in 1..12; the sets partition the range.",
+                "feasible t-set is computed from its branch conditions and on it 12*carry + month' = t with month' in 1..12; the sets partition the range."
+                ' Also included: R05.6 (Python-facing calendar methods incl. add_months).',
         "design_ref": "DESIGN.md §4 C08, §10.3",
         "note": "Assumed: chrono's month() in 1..=12, |months| < 2^31. Not decided: Gregorian validity (chrono). Trusted: chrono::NaiveDate::from_ymd_opt.",
         "technique": "exhaustive case evaluation of match tables and loop summaries over typed HIR",
@@ -68,7 +74,8 @@ CLAIMS = {
                 "member, is_settlement = true without settlement calendars else forall settlement calendars is_bus_day (each over its own field); "
                 "NamedCal and every CalType variant forward to the wrapped calendar; Cal's leaves are the mask/holiday membership tests; try_new's three "
                 "paths (lower-case before split, >2 parts Err, part 0 -> calendars, part 1 -> settlement) and parse_cals (one lookup per piece, ? "
-                "propagation); the behavioural equalities quantify over 1970-01-01..2200-12-31 and require both agreements on the same date.",
+                "propagation); the behavioural equalities quantify over 1970-01-01..2200-12-31 and require both agreements on the same date."
+                ' Also included: R05.6 (Python-facing calendar methods).',
         "design_ref": "DESIGN.md §4 C06",
         "note": "Not decided: nothing about concrete dates (C07). Trusted: lib/cel.py quantifier model; cal_date_range being calendar independent is checked.",
         "technique": "symbolic evaluation with quantifier normal forms (NNF); path flattening; delegation tables",
@@ -78,7 +85,8 @@ CLAIMS = {
                 "idiom: one-day linear search in its direction on is_bus_day; the settlement search with the same direction in all three places; the "
                 "four modified rules as 'F(date), unless the month differs then G(original date)' with F, G opposite members of one family; both "
                 "dispatch tables per modifier (Act = identity) and roll()'s table selection; no calendar type overrides a provided method. The idiom's "
-                "postcondition is the statement; calendars never enter the argument, so it holds for arbitrary calendars.",
+                "postcondition is the statement; calendars never enter the argument, so it holds for arbitrary calendars."
+                " Also included: C06's predicate rules R06.0-R06.2 and the Python-facing calendar methods (R05.6: arguments handed to the core methods unchanged).",
         "design_ref": "DESIGN.md §4 C04",
         "note": "Not decided: termination; dates outside chrono's range. Trusted: lib/cel.py loop summarisation; chrono's day arithmetic.",
         "technique": "symbolic summarisation of loops and dispatch tables over typed HIR, compared with idiom normal forms",
@@ -87,7 +95,8 @@ CLAIMS = {
         "text": "add_bus_days is flattened to its paths: a non-business start gives Err first; under days<0 the counted loop is 'c from 0, step "
                 "roll_backward(x-1 day), c-1, while c>days' and the settlement roll is backward, otherwise the forward mirror (n=0 forward); lag's four "
                 "cases with the +/-1 count adjustment; bus_date_range = collect while x<=end stepping add_bus_days(x,1,false); add_days = signed shift "
-                "then roll with arguments passed through. Integer comparisons are normalised (a<=b == a<b+1), so equivalent spellings are accepted.",
+                "then roll with arguments passed through. Integer comparisons are normalised (a<=b == a<b+1), so equivalent spellings are accepted."
+                " Also included: all of C04's rules and R05.6 (Python-facing calendar methods delegate unchanged). R05.4 classifies lag's paths by the sign region of `days` over the whole i8 range; counted loops and range folds share one `repeat` form.",
         "design_ref": "DESIGN.md §4 C05",
         "note": "Not decided: the count/inverse law evaluated on a concrete calendar (follows from the idiom + C04), termination, i8 extremes (C20).",
         "technique": "path flattening of symbolic summaries (loops as iterate forms) compared with expected path sets",
@@ -98,7 +107,8 @@ CLAIMS = {
                 "is evaluated per relationship and must return both numbers on one shared list (union for Difference); vars_cmp's guards must imply "
                 "each relationship (ordered equality, not set equality); in every match on a vars_cmp result only Arc/Value arms may mix two "
                 "numbers' arrays directly; hints must be the vars_cmp result of the same operands; equality compares value then aligned arrays. "
-                "If every mix is on operands aligned by name with zero default onto a list containing the union, results depend on names only.",
+                "If every mix is on operands aligned by name with zero default onto a list containing the union, results depend on names only."
+                ' Also included: the Number container tables (R18.3), Sum (R19.4) and the Python-facing operators incl. __eq__ (R18.4), which must hand operands to the by-name core operators unchanged.',
         "design_ref": "DESIGN.md §4 C03",
         "note": "Trusted: IndexSet/Arc semantics, lib/cel.py array-comprehension semantics. Nothing dynamic is claimed.",
         "technique": "symbolic evaluation of gather loops as array comprehensions; dataflow guard on match arms; quantifier-shape recognisers",
@@ -107,7 +117,8 @@ CLAIMS = {
         "text": "gradient1/gradient2/gradient1_manifold are evaluated symbolically: stored arrays are returned unchanged only under Arc/ValueEquivalence "
                 "with the requested list, otherwise entry i is the stored derivative at the position of requested[i] in the stored list (zero if absent) — "
                 "order asked = order answered; factor 2 on both gradient2 paths and in manifold rows; manifold entries are (dual[idx_i], 2*dual2[idx_i,.], 0) "
-                "on the requested list, zero number for absent names.",
+                "on the requested list, zero number for absent names."
+                " Also included: the AD operator rules and C03's alignment rules (the manifold product rule rests on Dual2 multiplication on numbers aligned by name).",
         "design_ref": "DESIGN.md §4 C17",
         "note": "Not decided: the product-rule identity on concrete numbers; requested lists with repeated names. Trusted: lib/cel.py array semantics.",
         "technique": "symbolic evaluation of guarded indexed writes in loops (array comprehension normal forms)",
@@ -116,7 +127,8 @@ CLAIMS = {
         "text": "The three two-point formulas are evaluated symbolically (generic over the number type) and must equal their closed forms incl. the "
                 "first-interval rule of the zero-rate formula; the flat rules are compared as canonical (condition, value) pairs; every interpolator "
                 "must feed nodes index/index+1 of its own map (x0 from index 0) to its own formula in order, with index = node_index = "
-                "index_left(keys, ts, None); CurveDF::try_new sorts on every path to construction and is the only constructor.",
+                "index_left(keys, ts, None); CurveDF::try_new sorts on every path to construction and is the only constructor."
+                ' Also: R11.5 (index_left as the bisection recurrence, judged per region of list lengths), R11.6 (node keys converted exactly as the query date), R11.4 widened to every CurveDF construction incl. the loader, R12.2 (sort before tagging) and R12.4 (the Python-facing Curve delegates unchanged).',
         "design_ref": "DESIGN.md §4 C11",
         "note": "Not decided: index_left (recursive bisection) — which interval a date falls in, clamping; 'between the nodes' is a numeric consequence. Trusted: lib/cel.py.",
         "technique": "symbolic normalisation of typed HIR vs closed forms; MIR must-pass-through (sort before construct); who-may-construct",
@@ -125,7 +137,8 @@ CLAIMS = {
         "text": "CurveDF::set_ad_order is evaluated for all 9 (target, stored) cases with the node map as a symbolic iterator pipeline: keys unchanged, "
                 "values through value-preserving conversions, float nodes raised with exactly tag vars[i] by enumerate index over the sorted map, "
                 "vars = id+'0'.. ; nodes_into_order sorts before enumerating (MIR dominance) and tags the same way; index_value is base/curve value with "
-                "exactly 0 strictly before the first node and Err without a base.",
+                "exactly 0 strictly before the first node and Err without a base."
+                ' Also included: R12.4 (Python-facing Curve: one delegation, no re-tagging detour) and the AD rules.',
         "design_ref": "DESIGN.md §4 C12",
         "note": "Not decided: numeric gradients/Hessians of looked-up values (follow from C11's generic formulas + C01/C02). Trusted: lib/cel.py Seq model.",
         "technique": "exhaustive case evaluation of match tables with a symbolic iterator model; MIR dominance",
@@ -134,7 +147,8 @@ CLAIMS = {
         "text": "Kind-case evaluation of every match table: set_order/set_order_clone (9 cases each, agreeing), every From impl among f64/Dual/Dual2/"
                 "Number, new(f, vars), and every operator/comparison on the Number container for all 9 (or 3) kind cases are evaluated symbolically with "
                 "the constructor of the operand known; the result must be the right variant wrapping exactly the contained types' rule (oracle form), "
-                "values untouched, and exactly the (Dual,Dual2)/(Dual2,Dual) cases must diverge. Enumerates all cases of finite tables — complete for them.",
+                "values untouched, and exactly the (Dual,Dual2)/(Dual2,Dual) cases must diverge. Enumerates all cases of finite tables — complete for them."
+                " Also: R18.4 — every Python-facing arithmetic/comparison operator of Dual/Dual2, for every kind of the other operand, is the core operator in the right operand order (or Err); `%` is compared with the contained type's own `%` (not with a hand-written formula).",
         "design_ref": "DESIGN.md §4 C18",
         "note": "Trusted: lib/cel.py (structural match evaluation), lib/oracle.py. Refusal = panic! (divergence). Type-level refusal of Dual+Dual2 is a compile-fail witness (thorough tier, when built).",
         "technique": "exhaustive case evaluation of match tables over typed HIR (symbolic), compared with the calculus oracle",
@@ -142,7 +156,8 @@ CLAIMS = {
     "C19": {
         "text": "partial_cmp impls are f64::partial_cmp of the two values in operand order and no other PartialOrd method is overridden; abs is the "
                 "piecewise flip of all fields; every % impl equals the oracle row a - trunc(a/b)*b in value and derivatives; Sum is fold(zero,+) from a "
-                "variable-free zero; zero()/one() are variable-free constants, neutral by the oracle rows.",
+                "variable-free zero; zero()/one() are variable-free constants, neutral by the oracle rows."
+                ' Also: R19.1b (comparisons on the Number container), the quotient of `%` is trunc of one f64 division (R19.3 side condition), and the number-surface rules R18.3/R18.4.',
         "design_ref": "DESIGN.md §4 C19",
         "note": "Trusted: lib/cel.py, lib/oracle.py. Not decided: NaN ordering; abs exactly at zero.",
         "technique": "symbolic normalisation of typed HIR against a calculus oracle; idiom recognition (fold-from-zero)",
@@ -152,14 +167,16 @@ CLAIMS = {
                 "(all owned/borrowed/float operand mixes, both arms of the variable-alignment match) is rewritten to a canonical sum of monomials "
                 "with exact rational coefficients and must equal the form generated from an independent 12-row derivative table; all 48 operand "
                 "mixes must exist; operand-swapping macro only for + and *. This decides that each local rule is the calculus rule as an identity "
-                "over the reals for every variant — a site-quantified argument the sampled tests cannot give. Composition is by induction (C03).",
+                "over the reals for every variant — a site-quantified argument the sampled tests cannot give. Composition is by induction (C03)."
+                " Also included (necessary conditions at the surface a user touches): the Number container's operator tables (R18.3), Sum as a fold with + (R19.4), the Python-facing operators (R18.4), gradient read-back (R17.1) and C03's alignment rules.",
         "design_ref": "DESIGN.md §4 C01, §2 oracle",
         "note": "Trusted: lib/cel.py normaliser, lib/oracle.py table. Not decided: IEEE rounding, library kernels (atoms), domain edges.",
         "technique": "symbolic normalisation of typed HIR (term rewriting) against a calculus oracle; impl-table completeness",
     },
     "C02": {
         "text": "As C01 for Dual2 including the half-Hessian (symmetrised cross term, 1/2 convention), plus sibling agreement of value/gradient with "
-                "the first-order operator and field-flow identity of the Dual<->Dual2 conversions.",
+                "the first-order operator and field-flow identity of the Dual<->Dual2 conversions."
+                " Also included: R18.3, R19.4, R18.4 (Number container, Sum, Python-facing operators), C17's read-back rules and C03's alignment rules.",
         "design_ref": "DESIGN.md §4 C02",
         "note": "Trusted: lib/cel.py, lib/oracle.py. Not decided: rounding, kernels, symmetry of user-supplied asymmetric Hessians; read-back factor 2 is in C17.",
         "technique": "symbolic normalisation of typed HIR against a calculus oracle; sibling cross-check",
@@ -169,7 +186,8 @@ CLAIMS = {
                 "and the weekday set of each fully published calendar (tgt,nyc,fed,ldn,stk,osl,zur) must equal the set generated by interpreting the "
                 "repository's own declarative Holiday(...) rule lists over 1970-2200 (the scripts are parsed with ast, never executed); partial "
                 "calendars must contain every weekday occurrence of their interpretable rules; the nine fixing histories must equal the calendars' "
-                "business days over their span. All ~29 000 literals and all 14 names are covered on every run.",
+                "business days over their span. All ~29 000 literals and all 14 names are covered on every run."
+                " Also included: Cal's leaf membership tests (R06.0, R06.2) and the range enumeration used by the back-test (R05.1, R05.5, R04.1, R04.5).",
         "design_ref": "DESIGN.md §4 C07",
         "note": "Trusted: lib/holidays.py (interpreter of the pandas Holiday subset; reproduces every fully interpretable table exactly), python ast/csv. "
                 "Not decided: whether the scripts themselves match the central banks' publications; holidays produced by script-local observance "
@@ -181,7 +199,8 @@ CLAIMS = {
                 "type travels or is rebuilt by the named constructor inside a data-model conversion that passes stored state through unchanged; data "
                 "models mirror the serialised fields; the tagged from_json entry point has a variant per writer and each writer wraps its own type; "
                 "pickling pairs serialise/restore the whole object; no bincode-hostile serde attribute; equality covers the serialised fields. These "
-                "are the structural necessary conditions of the round trip; equality of concrete objects is not evaluated.",
+                "are the structural necessary conditions of the round trip; equality of concrete objects is not evaluated."
+                " Also: S16.9 (a validating loader's Ok path demands exactly the shape invariant, so every constructible object loads back) and R10.4 (after update() the stored quotes are the updated ones).",
         "design_ref": "DESIGN.md §4 C16",
         "note": "Trusted: serde/serde_json/bincode/ndarray/indexmap serde implementations, cargo metadata. Not decided: numerical equality after a round "
                 "trip of concrete objects.",
@@ -192,7 +211,8 @@ CLAIMS = {
                 "indexing and other aborting library calls) reachable from the statement's entry points is enumerated from MIR and must be in a "
                 "reviewed table with the control depth it had when reviewed; types with a validating constructor must deserialise through a "
                 "panic-free validating conversion; struct literals of shape-constrained types are confined to reviewed constructors. "
-                "Quantifies over code sites, which is how 'for any input' is reached without running anything.",
+                "Quantifies over code sites, which is how 'for any input' is reached without running anything."
+                ' R20.1 judges sites per root function (closures and extracted private helpers absorbed) as a multiset against the reviewed budget; every row whose reason rests on a guard cites the rule deciding that guard, and C20 includes those rules (R15.2, R08.2/3/5, R03.1/3/5, R09.1/2, R05.4/5, R06.3, R10.4/6, R11.4). R20.6: every Ok path of a validating constructor/loader carries the shape invariant.',
         "design_ref": "DESIGN.md §4 C20",
         "note": "Trusted: rustc MIR, the reviewed reasons in rules/c20_sites.json (classes L/I/R/K/S are human-reviewed; machine-checked part is "
                 "table membership + dominating-branch count), the denylist of aborting externals. Not decided: aborts inside dependencies outside "
